@@ -1,5 +1,5 @@
 #!/bin/bash
-# selftest/run.sh [all|seeds|mutants] : must-fail corpus. Every seeded change (/verif/seeded/<ID>/patch.diff, written by
+# selftest/run.sh [all|seeds|seeds2|mutants|harmless] : must-fail corpus. Every seeded change (/verif/seeded/<ID>/patch.diff, written by
 # independent sub-agents) and every mutant of selftest/expect.json is applied to a scratch worktree of /repo HEAD and the
 # checks of the expected properties must report a VIOLATION. Prints one line per patch; exit 1 if a patch is missed.
 # Not a MANIFEST check (engine development discipline). Evidence of the unchanged tree is not touched (KVC_REPO runs write scratch evidence).
@@ -24,6 +24,13 @@ run() { # patch props...
 if [ "$what" = all ] || [ "$what" = seeds ]; then
   for d in seeded/C*/; do id=$(basename "$d"); [ -f "$d/patch.diff" ] || continue
     props=$(python3 -c "import json;print(' '.join(json.load(open('$d/meta.json')).get('check_properties',['$id'])))")
+    run "$d/patch.diff" $props
+  done
+fi
+if [ "$what" = all ] || [ "$what" = seeds2 ]; then
+  # round 2: two further seeds per property (seeded2/<ID><a|b>/), written after the machinery was built
+  for d in seeded2/C*/; do [ -f "$d/patch.diff" ] || continue
+    props=$(python3 -c "import json;m=json.load(open('$d/meta.json'));print(' '.join(m.get('check_properties',[m['property']])))")
     run "$d/patch.diff" $props
   done
 fi
